@@ -30,6 +30,10 @@ pub enum Step {
     RemoteInsert(u8),
     ExportSecret(u8),
     Reopen,
+    /// set_download_policy for the document: a store mutation that fails when the document does not exist
+    SetPolicy(u8),
+    /// register_useful_peer for the document: fails when the document does not exist
+    RegisterPeer(u8),
 }
 
 #[derive(Serialize, Deserialize, Clone, Debug)]
@@ -37,6 +41,10 @@ pub struct Case {
     pub file: bool,
     pub via_actor: bool,
     pub steps: Vec<Step>,
+    /// observe the listed kinds and contents only after a reopen and at the end (the observing reads commit the open
+    /// transaction, so observing after every step hides everything that depends on writes still being uncommitted)
+    #[serde(default)]
+    pub sparse_observe: bool,
 }
 
 #[derive(Clone, Copy, PartialEq, Eq, Debug)]
@@ -76,6 +84,8 @@ impl Prop for C07 {
             2 => d().prop_map(Step::RemoteInsert),
             1 => d().prop_map(Step::ExportSecret),
             1 => Just(Step::Reopen),
+            1 => d().prop_map(Step::SetPolicy),
+            1 => d().prop_map(Step::RegisterPeer),
         ];
         let plain = vec(step.clone(), 1..=max);
         // the downgrade scenario with random steps in between
@@ -89,14 +99,17 @@ impl Prop for C07 {
             steps.extend(gaps.pop().unwrap_or_default());
             steps
         });
-        (prop::bool::weighted(0.3), any::<bool>(), prop_oneof![3 => plain, 1 => scenario])
-            .prop_map(|(file, via_actor, steps)| Case { file, via_actor, steps })
+        (prop::bool::weighted(0.3), any::<bool>(), prop_oneof![3 => plain, 1 => scenario], any::<bool>())
+            .prop_map(|(file, via_actor, steps, sparse_observe)| Case { file, via_actor, steps, sparse_observe })
             .boxed()
     }
 
     fn check(ctx: &mut Ctx, c: &Case) -> Outcome {
         let mut o = Outcome::default();
         o.class(if c.via_actor { "via-actor" } else { "via-store" });
+        if c.sparse_observe {
+            o.class("observed-only-after-reopen-and-at-the-end");
+        }
         let r = if c.via_actor { check_actor(ctx, c, &mut o) } else { check_store(ctx, c, &mut o) };
         verif::set_clock(None);
         if let Err(e) = r {
@@ -255,6 +268,24 @@ fn check_store(ctx: &mut Ctx, c: &Case, o: &mut Outcome) -> R<()> {
                 st = st.reopen()?;
                 o.class("reopen");
             }
+            Step::SetPolicy(d) | Step::RegisterPeer(d) => {
+                let du = *d as usize;
+                let r = if matches!(s, Step::SetPolicy(_)) {
+                    st.store.set_download_policy(&ids[du], iroh_docs::store::DownloadPolicy::default()).map_err(|e| e.to_string())
+                } else {
+                    st.store.register_useful_peer(ids[du], [i as u8; 32]).map_err(|e| e.to_string())
+                };
+                if r.is_ok() != (caps[du] != Cap::Absent) {
+                    o.fail("C07/settings-vs-existence", format!("step {i} {:?} with capability {:?}: {:?}", s, caps[du], r));
+                    break;
+                }
+                if r.is_err() {
+                    o.class("failing-store-mutation");
+                }
+            }
+        }
+        if c.sparse_observe && !matches!(s, Step::Reopen) && i + 1 != c.steps.len() {
+            continue;
         }
         // every document: listed kind and contents
         let mut listed: BTreeMap<[u8; 32], String> = BTreeMap::new();
@@ -414,6 +445,24 @@ fn check_actor(ctx: &mut Ctx, c: &Case, o: &mut Outcome) -> R<()> {
                     handles = [0; 3];
                     o.class("reopen");
                 }
+                Step::SetPolicy(d) | Step::RegisterPeer(d) => {
+                    let du = *d as usize;
+                    let r = if matches!(s, Step::SetPolicy(_)) {
+                        h.set_download_policy(ids[du], iroh_docs::store::DownloadPolicy::default()).await.map_err(|e| e.to_string())
+                    } else {
+                        h.register_useful_peer(ids[du], [i as u8; 32]).await.map_err(|e| e.to_string())
+                    };
+                    if r.is_ok() != (caps[du] != Cap::Absent) {
+                        o.fail("C07/settings-vs-existence", format!("step {i} {:?} with capability {:?}: {:?}", s, caps[du], r));
+                        break;
+                    }
+                    if r.is_err() {
+                        o.class("failing-store-mutation");
+                    }
+                }
+            }
+            if c.sparse_observe && !matches!(s, Step::Reopen) && i + 1 != c.steps.len() {
+                continue;
             }
             // listed kinds, and contents of every open document
             let listed: BTreeMap<[u8; 32], String> = act::list_replicas(&h).await?.into_iter().map(|(id, k)| (id.to_bytes(), act::kind_name(k).to_string())).collect();
